@@ -145,7 +145,7 @@ class FakeSession:
 
     def request(self, method: str, url: str, **kw: Any) -> FakeCM:
         i = len(self.calls)
-        self.calls.append((method, url, dict(kw.get("headers") or {})))
+        self.calls.append((method, url, dict(kw.get("headers") or {}), kw.get("data")))
         out = self.script[min(i, len(self.script) - 1)]
         if out.get("stage") == "call":
             raise make_exc(out["exc"], out.get("st"))
@@ -233,7 +233,9 @@ def run_recipe(ctx: Ctx, recipe: Dict[str, Any], cid: str) -> Case:
     ops = list(recipe["ops"])
     script = (ops + [ops[-1]] * PAD)[:PAD]
     url = render_url(u)
-    lines = [f"req {kind.split('+')[0]}",
+    method = recipe.get("method", "GET")
+    reqbody = recipe.get("body")
+    lines = [f"req {kind.split('+')[0]} {method} {'none' if reqbody is None else tok_str(reqbody)}",
              f"url {u['kind']} {u['scheme']} {tok_str(u['a'])} {tok_str(u.get('d', ''))} {tok_str(u.get('z', ''))} "
              f"{u.get('port') or '-'} {tok_str(u['path'])}",
              f"own {fmt_headers(own or {})}", f"caller {fmt_headers(caller)}"]
@@ -269,7 +271,7 @@ def run_recipe(ctx: Ctx, recipe: Dict[str, Any], cid: str) -> Case:
             kw = {"http_headers": own} if own is not None else {}
             req = A.AiohttpSessionRequester(session, with_sleep=(kind == "session+sleep"), **kw)  # type: ignore[arg-type]
         try:
-            res = _loop().run_until_complete(req.async_http_request("GET", url, caller, None))
+            res = _loop().run_until_complete(req.async_http_request(method, url, caller, reqbody))
             if isinstance(res, tuple) and len(res) == 3 and isinstance(res[0], int) and isinstance(res[2], str):
                 hd = {str(k): str(v) for k, v in sorted(dict(res[1]).items())}
                 rl = f"res ret {res[0]} {fmt_headers(hd)} {tok_str(res[2])}"
@@ -285,8 +287,9 @@ def run_recipe(ctx: Ctx, recipe: Dict[str, Any], cid: str) -> Case:
     finally:
         A.ClientSession = orig  # type: ignore[misc]
         set_logging("off")
-    for (_m, cu, ch) in session.calls:
-        lines.append(f"call {tok_str(cu)} {fmt_headers(ch)}")
+    for (cm, cu, ch, cd) in session.calls:
+        lines.append(f"call {tok_str(cu)} {fmt_headers(ch)} {cm} {'none' if cd is None else tok_str(cd) if isinstance(cd, str) else '?' + type(cd).__name__}")
+    tags.add(f"method:{method}")
     lines.append(rl)
     tags.add(f"attempts:{len(session.calls)}")
     nontrivial = any("exc" in o for o in ops[:1]) or u["kind"] == "zoned"
@@ -393,6 +396,9 @@ def _work(args):
     return [run_recipe(ctx, rec, cid) for cid, rec in chunk]
 
 
+SOAP = '<?xml version="1.0"?><s:Envelope xmlns:s="http://schemas.xmlsoap.org/soap/envelope/"><s:Body><u:SetVolume>é</u:SetVolume></s:Body></s:Envelope>'
+REQUESTS = [("GET", None), ("GET", None), ("POST", SOAP), ("POST", ""), ("SUBSCRIBE", None), ("UNSUBSCRIBE", None),
+            ("NOTIFY", "<e:propertyset/>"), ("HEAD", None)]
 LOGMODES = ["off", "traffic", "traffic", "module", "both"]
 
 
@@ -404,8 +410,9 @@ def generate(ctx: Ctx) -> List[Case]:
 
     def add(kind, u, own, caller, ops, prefix="g"):
         nonlocal i
+        m, b = rng.choice(REQUESTS)
         cases.append(run_recipe(ctx, {"kind": kind, "url": u, "own": own, "caller": caller, "ops": ops,
-                                      "log": rng.choice(LOGMODES)}, f"{prefix}{i}"))
+                                      "log": rng.choice(LOGMODES), "method": m, "body": b}, f"{prefix}{i}"))
         i += 1
 
     # corpus: design-time probes
@@ -457,7 +464,8 @@ def generate(ctx: Ctx) -> List[Case]:
         for seq in itertools.product(alpha, repeat=4):
             u = pick_url(rng)
             jobs.append((f"e4_{i}", {"kind": "session", "url": u, "own": None, "caller": rng.choice(caller_variants(u)),
-                                     "ops": [mk_out(rng, nm, j) for j, nm in enumerate(seq)], "log": rng.choice(LOGMODES)}))
+                                     "ops": [mk_out(rng, nm, j) for j, nm in enumerate(seq)], "log": rng.choice(LOGMODES),
+                                     "method": rng.choice(REQUESTS)[0], "body": rng.choice([None, SOAP])}))
             i += 1
         n = 12
         lite = Ctx(ctx.prop, ctx.tier, ctx.seed, ctx.work, ctx.deadline)
